@@ -1,33 +1,78 @@
 /-
   Props/C18.lean — property theorems for C18 (unpacking a dataset archive never writes outside the install directory).
   Property theorems ONLY.
+
+  The model (Model/C18.lean) computes, at every site where the real code creates or replaces a file-system entry, the
+  PHYSICAL path the kernel would use — following symbolic links the way the kernel does, making missing parent directories
+  the way `os.makedirs` does on the literal path — independently of what the filter vetted with Python's lexical
+  `realpath`; an entry that would land anywhere but strictly below the install directory is the verdict `escaped`.
 -/
 import Kapture.Lemmas.C18
 
 namespace Kapture.C18
+
+/-- THE PROPERTY, one member: whatever the member's kind, name and link target, whatever the tree already holds (symbolic
+  links included, created by earlier members or standing there before), no entry is created or replaced anywhere but
+  strictly below the install directory.  `Closed` (nothing exists below a path that does not exist) holds of every real
+  tree. -/
+theorem member_never_escapes (dest : Path) (fs : FS) (hc : Closed fs) (earlier : List Member) (m : Member) :
+    ∀ q, extractMember dest fs earlier m ≠ Verdict.escaped q :=
+  extractMember_not_escaped hc earlier m
+
+/-- ... and a tree stays a tree, so the statement can be chained over the members of an archive -/
+theorem tree_stays_closed (dest : Path) (fs fs' : FS) (hc : Closed fs) (earlier : List Member) (m : Member)
+    (h : extractMember dest fs earlier m = Verdict.ok fs') : Closed fs' :=
+  extractMember_closed hc earlier m fs' h
+
+/-- THE PROPERTY, whole archives: extracting ANY archive (any number of members, any mix of files, directories, symbolic and
+  hard links, special files, any names and targets) into an install directory holding any tree never creates or replaces
+  an entry outside that directory -/
+theorem untar_never_escapes_from (dest : Path) (fs : FS) (hc : Closed fs) (ms : List Member) :
+    ∀ q, (untar dest fs ms).2 ≠ some (Stop.escaped q) :=
+  untarFrom_never_escapes ms fs [] hc
+
+/-- in particular from an empty install directory (what the correspondence harness runs) -/
+theorem untar_never_escapes (dest : Path) (ms : List Member) :
+    ∀ q, (untar dest [] ms).2 ≠ some (Stop.escaped q) :=
+  untar_never_escapes_from dest [] closed_nil ms
+
+-- non-vacuity: entries ARE created (a missing parent directory, then the file), through `writeAt`, the only way the
+-- model touches the tree
+example : placeMember ["inst"] [] [] { kind := Kind.file, name := "d/x", linkname := "", content := 1 } ["d", "x"]
+    = Verdict.ok [(["d"], Node.dir), (["d", "x"], Node.file 1)] := by decide +kernel
+
+/-- why the `..` guard of untar_file is needed (the defect D29, as a theorem about the model): WITHOUT it the `data` filter
+  accepts a name that leaves the install directory through a component that does not exist and comes back — the member
+  itself resolves inside — and `os.makedirs` then makes that component OUTSIDE -/
+theorem without_guard_a_directory_is_made_outside :
+    realpath ["p", "inst"] [] FUEL ["p", "inst"] ["..", "new", "..", "inst", "x"] = some ["p", "inst", "x"] ∧
+    placeMember ["p", "inst"] [] [] { kind := Kind.file, name := "", linkname := "", content := 1 } ["..", "new", "..", "inst", "x"]
+      = Verdict.escaped ["p", "new"] := by
+  constructor <;> decide +kernel
+
+/-- a member name with a `..` component is refused outright, before anything is touched -/
+theorem dotdot_refused (dest : Path) (fs : FS) (earlier : List Member) (m : Member) (h : ".." ∈ split m.name) :
+    extractMember dest fs earlier m = Verdict.filterError "OutsideDestinationError" := by
+  unfold extractMember
+  simp [h]
 
 /-- lexical resolution without links: `..` pops, `.` and empty are skipped, anything else is pushed -/
 theorem realpath_linkfree_step (dest : Path) (fs : FS) (h : LinkFree fs) (fuel : Nat) (cur : Path) (c : String) (rest : List String)
     (hc : c ≠ "" ∧ c ≠ "." ∧ c ≠ "..") :
     realpath dest fs (fuel + 1) cur (c :: rest) = realpath dest fs fuel (cur ++ [c]) rest := by
   obtain ⟨h1, h2, h3⟩ := hc
-  have e1 : (c == "" || c == ".") = false := by simp [h1, h2]
-  have e2 : (c == "..") = false := by simp [h3]
-  rw [realpath.eq_3]
-  simp only [e1, e2, Bool.false_eq_true, if_false]
-  split
-  · rename_i t heq
-    split at heq
-    · exact absurd heq (lookup_not_link fs h _ t)
-    · cases heq
-  · rfl
+  refine realpath_step_plain dest fs cur c rest fuel (by simp [h1, h2]) (by simp [h3]) (fun t ht => ?_)
+  unfold nodeAt at ht
+  split at ht
+  · exact lookup_not_link fs h _ t ht
+  · cases ht
 
 /-- a member is only ever extracted when its resolved destination is inside the install directory: whatever the
-  member's name (any mix of `..`, `.`, empty and absolute components) and whatever links the tree holds -/
+  member's name (any mix of `.`, empty and absolute components) and whatever links the tree holds -/
 theorem accepted_member_inside (dest : Path) (fs fs' : FS) (m : Member)
     (earlier : List Member) (h : extractMember dest fs earlier m = Verdict.ok fs') :
     ∃ target, realpath dest fs FUEL dest (split (stripSlashes m.name)) = some target ∧ Inside dest target := by
-  obtain ⟨target, ht, hp, _⟩ := extract_ok_inv dest fs fs' m earlier h
+  obtain ⟨_, _, target, ht, hp, _⟩ := extract_ok_inv dest fs fs' m earlier h
   exact ⟨target, ht, hp⟩
 
 /-- a symbolic or hard link is only ever created when its target is relative and resolves inside the install directory -/
@@ -37,44 +82,27 @@ theorem accepted_link_inside (dest : Path) (fs fs' : FS) (m : Member) (hk : m.ki
     ∃ t, realpath dest fs FUEL dest
           ((if m.kind = Kind.sym then (split (stripSlashes m.name)).dropLast else []) ++ split m.linkname) = some t ∧
       Inside dest t := by
-  obtain ⟨_, _, _, _, hl, _⟩ := extract_ok_inv dest fs fs' m earlier h
+  obtain ⟨_, _, _, _, _, _, hl, _⟩ := extract_ok_inv dest fs fs' m earlier h
   exact hl hk
 
 /-- special files (devices, fifos) are never extracted -/
 theorem special_rejected (dest : Path) (fs : FS) (earlier : List Member) (m : Member) (hk : m.kind = Kind.special) :
     ∀ fs', extractMember dest fs earlier m ≠ Verdict.ok fs' := by
   intro fs' h
-  obtain ⟨_, _, _, hs, _⟩ := extract_ok_inv dest fs fs' m earlier h
+  obtain ⟨_, _, _, _, _, hs, _⟩ := extract_ok_inv dest fs fs' m earlier h
   exact hs hk
 
 /-- extraction of a whole archive stops at the first refused member and keeps what was extracted before: the result is the
   fold of the accepted prefix -/
 theorem untar_stops_at_first_error (dest : Path) (fs : FS) (earlier : List Member) (m : Member) (ms : List Member) (why : String)
     (h : extractMember dest fs earlier m = Verdict.filterError why) :
-    untarFrom dest fs earlier (m :: ms) = (fs, some why) := by
+    untarFrom dest fs earlier (m :: ms) = (fs, some (Stop.filter why)) := by
   rw [untarFrom, h]
 
-/-- a name made of `..` components only can never be accepted from an empty install directory
-  (it resolves strictly above dest) -/
-theorem dotdot_rejected (dest : Path) (k : Nat) (hd : dest ≠ []) (hk : 0 < k) (hk2 : k ≤ dest.length) (m : Member)
-    (hn : split (stripSlashes m.name) = List.replicate k ".." ++ ["x"]) (hf : k + 2 ≤ FUEL) :
-    ∀ earlier fs', extractMember dest [] earlier m ≠ Verdict.ok fs' := by
-  intro earlier fs' h
-  obtain ⟨_, _, _, _, _, w, hw, hpw⟩ := extract_ok_inv dest [] fs' m earlier h
-  have hdl : (split (stripSlashes m.name)).dropLast = List.replicate k ".." := by
-    rw [hn, List.dropLast_concat]
-  obtain ⟨p, hp, hlen⟩ := kresolve_dotdots dest [] k FUEL dest (by omega)
-  rw [hdl, hp] at hw
-  cases hw
-  have := isPrefix_length hpw
-  have : 0 < dest.length := List.length_pos_iff.mpr hd
-  simp only at *
-  omega
-
-/-- PARTIAL — the full statement for link-free trees: a regular file with a plain relative name is always extracted, at
-  dest/name, with its content (benign archives are extracted entirely) -/
+/-- PARTIAL (one component; see `member_never_escapes` for where ANY member lands) — a regular file with a plain one-component
+  name is always extracted, at dest/name, with its content, whatever the tree holds elsewhere (link-free trees) -/
 theorem benign_file_extracted_partial (dest : Path) (fs : FS) (m : Member) (hl : LinkFree fs) (hk : m.kind = Kind.file)
-    (c : String) (hn : split (stripSlashes m.name) = [c]) (hc : c ≠ "" ∧ c ≠ "." ∧ c ≠ "..")
+    (c : String) (hn0 : ".." ∉ split m.name) (hn : split (stripSlashes m.name) = [c]) (hc : c ≠ "" ∧ c ≠ "." ∧ c ≠ "..")
     (hfree : lookup fs [c] = none) :
     ∀ earlier, extractMember dest fs earlier m = Verdict.ok (setNode fs [c] (Node.file m.content)) := by
   intro earlier
@@ -83,11 +111,17 @@ theorem benign_file_extracted_partial (dest : Path) (fs : FS) (m : Member) (hl :
     rw [realpath_linkfree_step dest fs hl 199 dest c [] hc]
     rfl
   have hkr : kresolve dest fs FUEL dest [] = some dest := rfl
+  have hself : isPrefix dest dest = true := isPrefix_refl dest
+  have hdir : isDirAt dest fs dest = true := by simp [isDirAt, hself, rel, lookup]
+  have hex : existsAbs dest fs (dest ++ [c]) = none := by simp [existsAbs, isPrefix_append, rel, hfree]
+  have hs : strictInside dest (dest ++ [c]) = true := by simp [strictInside, isPrefix_append]
+  have hcd : ".." ∉ [c] := by simp; exact fun e => hc.2.2 e.symm
+  have hcd2 : ¬ ".." = c := fun e => hc.2.2 e.symm
   unfold extractMember
   dsimp only
   simp only [hn, hr]
-  have hself : isPrefix dest dest = true := by simpa using isPrefix_append dest []
-  have hdir : isDirAt dest fs dest = true := by simp [isDirAt, hself, rel, lookup]
-  simp [isPrefix_append, hself, hk, hkr, hc.1, hc.2.1, hc.2.2, rel, hfree, hdir]
+  simp only [isPrefix_append, Bool.not_true, Bool.false_eq_true, if_false, hk]
+  simp only [placeMember, walkUpper, List.dropLast_singleton, hkr, hdir, placeFinal, List.getLast?_singleton, Option.getD_some]
+  simp [hc.1, hc.2.1, hc.2.2, hex, writeAt, hs, rel, hn0, hcd2, hk]
 
 end Kapture.C18
